@@ -1,11 +1,143 @@
-(* C24  Unmatched suppressions are reported exactly. Statements only. *)
-From CV Require Import Base.Bytes Base.Glob Supp.Defs Supp.Proofs Supp.ListProofs Supp.ExecDefs.
+(* C24  Unmatched suppressions are reported exactly.
+   Statements only; every proof is `exact <lemma>` (Supp/ExecProofs.v). *)
+From CV Require Import Base.Bytes Base.Glob Supp.Defs Supp.Proofs Supp.ListProofs Supp.ExecDefs Supp.ExecProofs.
+Require Import Permutation.
+Local Open Scope N_scope.
 
+(* flags_sound: after ANY sequence of SuppressionList::isSuppressed calls every
+   suppression carries  matched = initial || some query hides it (documented rule,
+   on a query that consults it),  checked = initial || some query reaches its place *)
+Theorem C24_flags_sound pm Q l l' bs :
+  list_run pm l Q = Some (l', bs) -> l' = map (derive pm Q []) l.
+Proof. exact (list_run_derive pm Q l l' bs). Qed.
+Print Assumptions C24_flags_sound.
+
+(* a match always sets checked as well *)
+Theorem C24_matched_implies_checked pm Q M s :
+  (s_matched s = true -> s_checked s = true) ->
+  s_matched (derive pm Q M s) = true -> s_checked (derive pm Q M s) = true.
+Proof. exact (derive_matched_checked pm Q M s). Qed.
+Print Assumptions C24_matched_implies_checked.
+
+(* the flags depend on the set of queries and token lines only, not on their order:
+   any interleaving of the same queries (schedules) leaves the same state *)
+Theorem C24_flags_order_independent pm Q Q' M M' s :
+  Permutation Q Q' -> Permutation M M' -> derive pm Q M s = derive pm Q' M' s.
+Proof. exact (derive_perm pm Q Q' M M' s). Qed.
+Print Assumptions C24_flags_order_independent.
+
+(* the logger (CppCheckLogger::reportErr over any sequence of findings) is such a
+   sequence of queries on the nomsg list *)
+Theorem C24_logger_flags pm ug ms st st' outs :
+  logger_run pm ug st ms = Some (st', outs) ->
+  l_nomsg st' = map (derive pm (nomsg_queries pm ug (l_nomsg st) (l_nofail st) (l_seen st) ms) []) (l_nomsg st).
+Proof. exact (logger_run_nomsg pm ug ms st st' outs). Qed.
+Print Assumptions C24_logger_flags.
+
+(* markUnmatchedInlineSuppressionsAsChecked only adds checked flags, per token line *)
+Theorem C24_mark_checked pm locs l : mark_checked locs l = map (derive pm [] locs) l.
+Proof. exact (mark_checked_derive pm locs l). Qed.
+Print Assumptions C24_mark_checked.
+
+(* the three getters never select a matched suppression *)
 Theorem C24_selectors_never_select_matched pm file s :
-  s_matched s = true ->
-  unmatched_local pm file s = false /\ unmatched_global s = false /\ unmatched_inline s = false.
-Proof.
-  intros H. unfold unmatched_local, unmatched_global, unmatched_inline. rewrite H.
-  cbn. rewrite !andb_false_r. cbn. auto.
-Qed.
+  (unmatched_local pm file s = true \/ unmatched_inline s = true \/ unmatched_global s = true) -> s_matched s = false.
+Proof. exact (selectors_unmatched pm file s). Qed.
 Print Assumptions C24_selectors_never_select_matched.
+
+(* reportUnmatchedSuppressions emits exactly `should_report`: no bail-out entry, and the
+   suppression is selected by the per-file / inline / global group, is not covered by a
+   selected unmatchedSuppression entry of the same group, and passes the id filters *)
+Theorem C24_report_exact pm filters ie l paths r :
+  report_unmatched pm filters ie l paths = Some r -> forall s, In s r <-> should_report pm filters ie l paths s.
+Proof. exact (report_unmatched_spec pm filters ie l paths r). Qed.
+Print Assumptions C24_report_exact.
+
+Theorem C24_reported_never_matched pm filters ie l paths s :
+  should_report pm filters ie l paths s -> In s l /\ s_matched s = false.
+Proof. exact (reported_never_matched pm filters ie l paths s). Qed.
+Print Assumptions C24_reported_never_matched.
+
+(* every executor: an unmatchedSuppression finding is about a suppression whose flag is unset *)
+Theorem C24_reported_flag_unmatched pm k cfg nomsg nofail fs wp o s :
+  whole_run pm k cfg nomsg nofail fs wp = Some o -> In s (o_unmatched o) -> In s (o_nomsg o) /\ s_matched s = false.
+Proof. exact (reported_flag_unmatched pm k cfg nomsg nofail fs wp o s). Qed.
+Print Assumptions C24_reported_flag_unmatched.
+
+(* single executor, the whole run: final flags, shown findings, the unmatched report and
+   the status as functions of the suppressions and the findings alone *)
+Theorem C24_single_run_exact pm cfg nomsg nofail fs wp o :
+  whole_run pm None cfg nomsg nofail fs wp = Some o -> Forall (inline_present nomsg) fs ->
+  let final := map (derive pm (run_queries pm nomsg nofail fs wp) (flat_map f_locs fs)) nomsg in
+  o_nomsg o = final
+  /\ o_reported o = flat_map (fun f => pick (spec_forward pm true nomsg [] (f_msgs f)) (f_msgs f)) fs
+                    ++ pick (spec_forward pm true nomsg [] wp) wp
+  /\ (forall s, In s (o_unmatched o) <->
+                c_info cfg = true /\ nomsg <> [] /\ should_report pm (c_filters cfg) (c_inline cfg) final (map f_path fs) s)
+  /\ o_status o = if findings_raise pm nomsg nofail fs wp || negb (is_nil_list (o_unmatched o))
+                  then c_exitcode cfg else 0.
+Proof. exact (whole_run_single_spec pm cfg nomsg nofail fs wp o). Qed.
+Print Assumptions C24_single_run_exact.
+
+(* single executor: never an unmatchedSuppression for a suppression that hides a finding
+   of the run (shown, suppressed or duplicate; file-level or whole-program) *)
+Theorem C24_single_never_for_a_match pm cfg nomsg nofail fs wp o s :
+  whole_run pm None cfg nomsg nofail fs wp = Some o -> Forall (inline_present nomsg) fs ->
+  In s (o_unmatched o) ->
+  exists s0, In s0 nomsg /\ static s = static s0 /\ s_matched s0 = false
+             /\ forall e, finding_of fs wp e -> hides pm true e s0 = false.
+Proof. exact (single_reported_hides_nothing pm cfg nomsg nofail fs wp o s). Qed.
+Print Assumptions C24_single_never_for_a_match.
+
+(* single executor, completeness for global suppressions: one that hides no finding of the
+   run IS reported (information on, no unmatchedSuppression entry, no id filter) *)
+Theorem C24_single_global_unmatched_reported pm cfg nomsg nofail fs wp o s0 :
+  whole_run pm None cfg nomsg nofail fs wp = Some o -> Forall (inline_present nomsg) fs ->
+  c_info cfg = true ->
+  In s0 nomsg -> s_matched s0 = false -> s_inline s0 = false -> s_file s0 = [] -> s_hash s0 = 0 ->
+  is_nil (s_id s0) = false -> str_eqb (s_id s0) CHECKERSREPORT = false ->
+  (forall x, In x nomsg -> str_eqb (s_id x) UNMATCHED = false) ->
+  filtered_out (c_filters cfg) s0 = false ->
+  (forall e, finding_of fs wp e -> hides pm true e s0 = false) ->
+  exists s, In s (o_unmatched o) /\ static s = static s0.
+Proof. exact (single_global_unmatched_reported pm cfg nomsg nofail fs wp o s0). Qed.
+Print Assumptions C24_single_global_unmatched_reported.
+
+(* worker -> parent state transfer (updateSuppressionState): the records may arrive in any order *)
+Theorem C24_state_transfer_order_independent us us' l :
+  Permutation us us' -> update_all l us = update_all l us'.
+Proof. intros H. exact (update_all_perm us us' H l). Qed.
+Print Assumptions C24_state_transfer_order_independent.
+
+(* thread / process executors keep the suppressions of the lists (only flags move) *)
+Theorem C24_multi_keeps_suppressions pm k bn bf fs n f seen sr :
+  multi_files pm k bn bf n f seen fs = Some sr ->
+  map static n = map static bn -> map static f = map static bf -> Forall (inline_present bn) fs ->
+  map static (sr_nomsg sr) = map static bn.
+Proof. intros H H1 H2 H3. exact (proj1 (multi_files_spec pm k bn bf fs n f seen sr H H1 H2 H3)). Qed.
+Print Assumptions C24_multi_keeps_suppressions.
+
+(* REFUTED for the thread and process executors: with --suppress=nullPointer
+   --suppress=nullPointer:a.c and one nullPointer finding in a.c, -j1 reports nothing, but
+   the multi-job executors report the global `nullPointer` as unmatched although it hides
+   the finding: the worker consults local suppressions only, the finding never reaches the
+   parent, so the global entry's flag is never set *)
+Theorem C24_executor_independent_refuted :
+  exists o1 o2 s,
+    whole_run pm_eq None w24_cfg w24_nomsg [] w24_files [] = Some o1
+    /\ whole_run pm_eq (Some EThread) w24_cfg w24_nomsg [] w24_files [] = Some o2
+    /\ whole_run pm_eq (Some EProcess) w24_cfg w24_nomsg [] w24_files [] = Some o2
+    /\ o_unmatched o1 = [] /\ o_unmatched o2 = [s]
+    /\ hides pm_eq true w24_finding s = true.
+Proof. exact witness_executor_dependent. Qed.
+Print Assumptions C24_executor_independent_refuted.
+
+(* premises are inhabited *)
+Example C24_ex_inline_present : Forall (inline_present w24_nomsg) w24_files.
+Proof. repeat constructor. Qed.
+Example C24_ex_run : exists o, whole_run pm_eq None w24_cfg w24_nomsg [] w24_files [] = Some o.
+Proof. eexists. vm_compute. reflexivity. Qed.
+Example C24_ex_reported : exists o s, whole_run pm_eq None w25_cfg w25_nomsg w25_nofail w25_files [] = Some o /\ In s (o_unmatched o).
+Proof. eexists. eexists. vm_compute. split; [reflexivity|left; reflexivity]. Qed.
+Example C24_ex_list_run : exists l' bs, list_run pm_eq w24_nomsg [(w24_finding, true)] = Some (l', bs).
+Proof. eexists. eexists. vm_compute. reflexivity. Qed.
